@@ -95,10 +95,11 @@ def parse_records(lines, impl):
 
 
 class Harness:
-    def __init__(self, ctx, variant="plain", budget=20000):
+    def __init__(self, ctx, variant="plain", budget=3000, secs=4):
         self.ctx = ctx
         self.exe = ctx.harness("zwharness", variant)
         self.budget = budget
+        self.secs = secs
         rc, out, err = common.run_lines(self.exe, ["D", "V"])
         self.types = out[0]
         self.domorder = out[1]
@@ -107,7 +108,7 @@ class Harness:
 
     def run_impl(self, lines, timeout=1800):
         """returns (records, crashed_index or None, stderr)"""
-        rc, out, err = common.run_lines(self.exe, lines, timeout=timeout, args=[str(self.budget)])
+        rc, out, err = common.run_lines(self.exe, lines, timeout=timeout, args=[str(self.budget), str(self.secs)])
         recs = parse_records(out, True)
         crashed = None
         if rc != 0 or len(recs) != len(lines):
@@ -121,7 +122,7 @@ class Harness:
         crashes = []
         i = 0
         while i < len(lines):
-            rc, out, err = common.run_lines(self.exe, lines[i:], timeout=3600, args=[str(self.budget)])
+            rc, out, err = common.run_lines(self.exe, lines[i:], timeout=3600, args=[str(self.budget), str(self.secs)])
             r = parse_records(out, True)
             if rc == 0 and len(r) == len(lines) - i:
                 recs += r
@@ -199,3 +200,97 @@ def shrink(ctx, h, prog, still_fails, maxsteps=200):
             if steps >= maxsteps:
                 break
     return " ".join(toks)
+
+
+# ---------------------------------------------------------------------------------------------
+# generic query-level check used by C01, C03, C04, C10, C11, C15 …
+
+def classify_mismatch(irec, mrec):
+    """'results' (multiset / errors differ: the documented meaning is violated), 'order' (same
+    multiset, different order), 'tree', or None"""
+    d = diff(irec, mrec)
+    if d is None:
+        return None, None
+    if d.startswith("order differs"):
+        return "order", d
+    return "results", d
+
+
+def run_programs(ctx, h, progs, flags="-", what="program", theorem="", ordered_matters=None,
+                 max_report=5, label="query"):
+    """Run programs through implementation and model, report violations.  Returns statistics."""
+    lines = ["Q %s %s" % (flags, hx(p)) for p in progs]
+    irecs, crashes = h.run_impl_robust(lines)
+    mrecs = h.run_model(lines)
+    stats = collections.Counter()
+    nontrivial = set()
+    reported = 0
+    for idx, err in crashes:
+        if reported < max_report:
+            ctx.violation("the implementation crashed / aborted on %s %r: %s" % (what, progs[idx], err.strip()[-300:]),
+                          {"stream": label, "input": progs[idx], "stderr": err, "theorem": theorem}, found_input=True)
+            reported += 1
+    for p, i, m in zip(progs, irecs, mrecs):
+        stats["programs"] += 1
+        stats["model:" + (m.err or "ok").split(":")[0] + (":" + m.err.split(":")[1] if m.err and m.err.count(":") else "")] += 1
+        if len(m.res) > 1:
+            stats["multi-result"] += 1
+        if m.soft:
+            stats["with-soft-error"] += 1
+        if not comparable(m):
+            stats["not-predicted"] += 1
+        elif len(m.res) >= 1 or m.soft or m.err:
+            nontrivial.add(p)
+        if i.err == "crash":
+            continue
+        kind, d = classify_mismatch(i, m)
+        if kind is None:
+            continue
+        stats["mismatch:" + kind] += 1
+        if reported >= max_report:
+            continue
+        reported += 1
+
+        def still(q, kind=kind):
+            l = ["Q %s %s" % (flags, hx(q))]
+            ir, _ = h.run_impl_robust(l)
+            mr = h.run_model(l)
+            if mr[0].err and mr[0].err.startswith("compile") and ir[0].err == mr[0].err:
+                return False
+            k2, _ = classify_mismatch(ir[0], mr[0])
+            return k2 == kind
+        q = shrink(ctx, h, p, still, maxsteps=120)
+        l = ["Q %s %s" % (flags, hx(q))]
+        ir, _ = h.run_impl_robust(l)
+        mr = h.run_model(l)
+        d2 = diff(ir[0], mr[0]) or d
+        rep = {"stream": label, "input": q, "original_input": p, "flags": flags, "got": ir[0].raw[:20],
+               "expected": mr[0].raw[:20], "theorem": theorem, "minimised": q != p}
+        if kind == "results":
+            ctx.violation("%s %r: implementation and documented meaning differ: %s" % (what, q, d2[:300]), rep,
+                          found_input=True)
+        else:
+            strict = ordered_matters(q) if ordered_matters else False
+            if strict:
+                ctx.violation("%s %r: documented result order violated: %s" % (what, q, d2[:300]), rep, found_input=True)
+            else:
+                rep["correspondence"] = "zwharness vs ZwVerif.Model.Sem (scheduling order only; multiset of results unchanged)"
+                ctx.violation("%s %r: results come in a different order than the engine model predicts (same multiset): %s"
+                              % (what, q, d2[:200]), rep, found_input=False)
+    stats["distinct_nontrivial"] = len(nontrivial)
+    return stats, irecs, mrecs
+
+
+def single_input_documented_order(q):
+    """programs for which the documentation fixes the order: no stream prefix feeding an ALT —
+    conservatively: exactly one ALT/elem/relem/sequence literal construct and nothing multi-yielding before it"""
+    import re as _re
+    body = q.strip()
+    # a single top-level construct on the empty stack
+    if _re.fullmatch(r"\((\s*[-\w\"\\]+\s*,)+\s*[-\w\"\\]+\s*\)", body):
+        return True
+    if _re.fullmatch(r"\[[^\[\]()]*\](\s+(elem|relem))?", body):
+        return True
+    if _re.fullmatch(r"\"[^\"%]*\"\s+(elem|relem)", body):
+        return True
+    return False
